@@ -115,6 +115,7 @@ U70 = [{"type": "fixed", "name": "F%d" % i, "size": 1} for i in range(70)]
 CORPUS_CASES = [
     ({"type": "record", "name": "N1", "fields": [{"name": "a", "type": ["int", "null"], "default": 10}, {"name": "b", "type": ["null", "string"], "default": None}]}, {"a": None, "b": "x"}),
     ({"type": "record", "name": "N1", "fields": [{"name": "a", "type": ["int", "null"], "default": 10}]}, {}),
+    ("string", "\ufeffabc"), ("string", "\ufeff"), ({"type": "map", "values": "int"}, {"\ufeffk": 1, "k": 2}), ({"type": "array", "items": "string"}, ["\ufeff\ufeffx", "\x00", "\u2028"]),
     ("string", "\u00e9" * 40), ("string", "\U0001F600" * 20), ("string", "\u20ac" * 63), ({"type": "map", "values": "int"}, {"\u00e9" * 33: 1}),
     (U70, b"\x07"), (U70 + ["null"], None), ({"type": "array", "items": U70[:66] + ["long"]}, [5, b"\x01", -1]),
     ("double", -0.0), ("float", -0.0), ({"type": "array", "items": "float"}, [-0.0, 0.0, 1e-46, -1e-46]),
@@ -147,6 +148,28 @@ CORPUS_CASES = [
     ([{"type": "enum", "name": "a.Kind", "symbols": ["A", "B"]}, {"type": "enum", "name": "Kind", "symbols": ["B", "A"]},
       {"type": "fixed", "name": "b.Kind", "size": 1}], d) for d in [("Kind", "A"), ("a.Kind", "A"), ("b.Kind", b"A"), "B"]
 ]
+
+
+def tail_cases():
+    """(raw schema, datum): encodings that END with each kind of leaf / terminator, alone, as the last field of a record (also
+    followed by zero-byte values), under a union, and as the last item of an array / map -- so that "every proper prefix raises"
+    is exercised with each decoder leaf facing end-of-input at its first byte, deterministically."""
+    leaves = [("null", None), ("boolean", True), ("boolean", False), ("int", 0), ("int", -1), ("long", 1 << 40), ("float", 1.5), ("double", -2.25),
+              ("bytes", b""), ("bytes", b"ab"), ("string", ""), ("string", "\u00e9"), ({"type": "fixed", "name": "TF", "size": 2}, b"xy"),
+              ({"type": "fixed", "name": "TF0", "size": 0}, b""), ({"type": "enum", "name": "TE", "symbols": ["A", "B"]}, "B"),
+              ({"type": "array", "items": "boolean"}, [True, False]), ({"type": "array", "items": "long"}, []),
+              ({"type": "map", "values": "boolean"}, {"k": True}), ({"type": "map", "values": "null"}, {"k": None})]
+    out = []
+    for t, v in leaves:
+        out.append((t, v))
+        out.append(({"type": "record", "name": "TailR", "fields": [{"name": "a", "type": "long"}, {"name": "b", "type": t}]}, {"a": 7, "b": v}))
+        out.append(({"type": "record", "name": "TailN", "fields": [{"name": "a", "type": "long"}, {"name": "b", "type": t}, {"name": "z", "type": "null"},
+                                                                  {"name": "y", "type": {"type": "fixed", "name": "Z0", "size": 0}}]}, {"a": 7, "b": v, "z": None, "y": b""}))
+        if not isinstance(t, dict) or t.get("type") not in ("array", "map"):
+            out.append((["null", t] if t != "null" else ["null", "long"], v if t != "null" else None))
+            out.append(({"type": "array", "items": t}, [v, v]))
+            out.append(({"type": "map", "values": t}, {"k1": v}))
+    return out
 
 
 def corpus_cases():
